@@ -145,6 +145,10 @@ func c06Probes(e eco.Eco) []eco.Ver {
 
 var c06Specials = []string{"\x00", "\x7f", "\x80", "\xff", "é", "٠", " ", "\t", "\n", "\r"}
 
+// c06CaseSpecials: byte sequences whose length changes under strings.ToLower / ToUpper / ToValidUTF8
+// (an index computed on the folded copy and used on the original, or the reverse, goes out of range).
+var c06CaseSpecials = []string{"\xff", "\xff\xff", "\u023a", "\u023a\u023a", "\u0130", "\u212a", "\u1e9e", "\u00df", "\u0131", "\xc3", "\xe2\x82"}
+
 func c06EcoUnit(name string, lvl int) core.Unit {
 	return core.Unit{Name: "C06/" + name, Weight: 10, Run: func(r *core.Result) {
 		e := eco.ByName(name)
@@ -234,6 +238,40 @@ func c06EcoUnit(name string, lvl int) core.Unit {
 						if kind == "v" {
 							c.checkVersion(m)
 						} else {
+							c.checkRange(m)
+						}
+					}
+				}
+			}
+		}
+		// length-changing specials around EVERY string of length <= 2 over the alphabet (accepted or
+		// not: the parser may slice before it validates) and inside a stride sample of the universe
+		{
+			short := gen.AllStrings(c06Alphabet(lvl), 2)
+			for _, t := range short {
+				for _, sp := range c06CaseSpecials {
+					muts := []string{sp + t, t + sp}
+					if len(t) == 2 {
+						muts = append(muts, t[:1]+sp+t[1:])
+					}
+					for _, m := range muts {
+						r.Add("states", 1)
+						r.Add("case_special_inputs", 1)
+						c.checkVersion(m)
+						c.checkRange(m)
+					}
+				}
+			}
+			uv := gen.Uniq(gen.Versions(name, 0))
+			stride := len(uv)/120 + 1
+			for k := 0; k < len(uv); k += stride {
+				s := uv[k]
+				for i := 0; i <= len(s); i++ {
+					for _, sp := range c06CaseSpecials {
+						for _, m := range []string{s[:i] + sp + s[i:], ">=" + s[:i] + sp + s[i:]} {
+							r.Add("states", 1)
+							r.Add("case_special_inputs", 1)
+							c.checkVersion(m)
 							c.checkRange(m)
 						}
 					}
